@@ -7,6 +7,7 @@ frame-level peer, with symbolic argument and result values.
 O3: call trees across two real connections vs the same tree evaluated in-process
 (exhaustive over tree shapes within the bound; native execution).
 """
+import collections
 import sys
 
 import z3
@@ -29,9 +30,11 @@ from rpyc.core import consts
 
 
 REPLAY_CALL = REPLAY_HEAD + '''
+import collections
 class Ref(object): pass
-ref = Ref()
-SHAPES = [((), {}), ((12345678901234567890, "text"), {}), (((7, ref), None), {"key": -5}), ((ref,), {"k2": ref, "k1": (1, True), "k3": None})]
+class Pt(collections.namedtuple("Pt", "x y")): pass
+ref = Ref(); rec = Pt(1, 2)
+SHAPES = [((rec, (5, rec)), {"p": rec}), ((), {}), ((12345678901234567890, "text"), {}), (((7, ref), None), {"key": -5}), ((ref,), {"k2": ref, "k1": (1, True), "k3": None})]
 pair = l2.Pair(config_a=dict(allow_public_attrs=True), config_b=dict(allow_public_attrs=True))
 seen = []
 def target(*a, **k):
@@ -42,7 +45,8 @@ proxy = pair.a._unbox(pair.b._box(target))          # side a holds a proxy to si
 praiser = pair.a._unbox(pair.b._box(raiser))
 bad = []
 def norm(x, here):
-    if isinstance(x, tuple): return tuple(norm(y, here) for y in x)
+    if type(x) is tuple: return tuple(norm(y, here) for y in x)
+    if isinstance(x, Pt): return "REF" if here == 0 else "RECORD-ARRIVED-BY-VALUE"
     if isinstance(x, Ref): return "REF"
     if hasattr(x, "____id_pack__"): return "REF"     # a proxy of the argument object
     return x
@@ -67,10 +71,17 @@ if bad:
 '''
 
 
+class Pt(collections.namedtuple("Pt", "x y")):
+    """a record (tuple subclass): not a plain tuple, so it travels by reference like any other object"""
+
+
 def arg_shapes(c):
     """positional and keyword arguments of a call: symbolic leaves, tuples mixing values and references"""
-    k = c.choose(4, "arg-shape")
+    k = c.choose(5, "arg-shape")
     ref = Ref("arg-object")
+    if k == 4:
+        rec = Pt(1, 2)
+        return (rec, (5, rec)), {"p": rec}, rec
     if k == 0:
         return (), {}, None
     if k == 1:
@@ -101,7 +112,7 @@ class Ref(object):
 
 def same_arg(a, b, ref_ok):
     """equality of an argument as sent and as seen by the callee: values equal (term), references identical"""
-    if isinstance(a, Ref) or isinstance(b, Ref):
+    if isinstance(a, (Ref, Pt)) or isinstance(b, (Ref, Pt)):
         return ref_ok(a, b)
     if type(a) is tuple and type(b) is tuple:
         if len(a) != len(b):
@@ -168,7 +179,7 @@ def ob_caller(run, interp):
                     else:
                         if tgt != ("local", n["target"]):
                             bad = "target is %r" % (tgt,)
-                        ref_ok = lambda x, y: (isinstance(y, tuple) and y[0] == "remote" and conn._local_objects[y[1]] is x) if isinstance(x, Ref) else False
+                        ref_ok = lambda x, y: (isinstance(y, tuple) and y[0] == "remote" and conn._local_objects[y[1]] is x) if isinstance(x, (Ref, Pt)) else False
                         eq = same_arg(tuple(n["args"]), a, ref_ok)
                         if eq is False:
                             bad = bad or "positional arguments changed on the way"
@@ -295,7 +306,7 @@ def ob_callee(run, interp):
             c.assume(z3.And(seq.e >= 0, seq.e < 10 ** 100))
 
             def box(x):
-                if isinstance(x, Ref):
+                if isinstance(x, (Ref, Pt)):
                     return (consts.LABEL_REMOTE_REF, ("builtins.list", 7, id(x) % 100000))
                 if type(x) is tuple:
                     return (consts.LABEL_TUPLE, tuple(box(y) for y in x))
@@ -325,7 +336,7 @@ def ob_callee(run, interp):
                 bad = "the target ran %d times" % len(calls)
             else:
                 a, k = calls[0]
-                ref_ok = lambda x, y: isinstance(x, Ref) and isinstance(y, netref.BaseNetref) and y.____id_pack__[0] == "builtins.list"
+                ref_ok = lambda x, y: isinstance(x, (Ref, Pt)) and isinstance(y, netref.BaseNetref) and y.____id_pack__[0] == "builtins.list"
                 eq = same_arg(tuple(n["args"]), tuple(a), ref_ok)
                 if eq is False:
                     bad = "positional arguments seen by the target differ"
